@@ -339,6 +339,43 @@ func genOps(prop string, r *Rng, n int, tier string, emit func(string)) {
 			emit("reenc " + hx(append(append(validFrame(r, "BYE"), nk...), validFrame(r, "RRR")...)))
 		}
 		if prop == "C09" {
+			// status vectors whose symbols are all alike (a run-length chunk would say the same: the decoded chunk kind must survive)
+			for _, c := range [][2]int{{0xBFFF, 14}, {0xD555, 7}, {0xEAAA, 7}, {0xFFFF, 7}, {0x8000, 14}} {
+				body := []byte{0, 0, 0, 1, 0, 0, 0, 2, 0, 1, 0, byte(c[1]), 0, 0, 3, 4, byte(c[0] >> 8), byte(c[0])}
+				nd, w := 0, 1
+				switch c[0] {
+				case 0xBFFF, 0xD555:
+					nd = c[1]
+				case 0xEAAA:
+					nd, w = c[1], 2
+				}
+				for j := 0; j < nd*w; j++ {
+					body = append(body, byte(1+j%3))
+				}
+				f := append([]byte{0x8f, 205, 0, 0}, body...)
+				if pad := (4 - len(f)%4) % 4; pad > 0 {
+					f[0] |= 0x20
+					for j := 0; j < pad-1; j++ {
+						f = append(f, 0)
+					}
+					f = append(f, byte(pad))
+				}
+				binary.BigEndian.PutUint16(f[2:], uint16(len(f)/4-1))
+				emit("reenc " + hx(f))
+			}
+			// RLE blocks that end in several terminating null chunks, and with a null chunk in the middle (RFC 3611 allows both)
+			for _, ch := range [][]uint16{{0x4006, 0x8765, 0, 0}, {0x4006, 0, 0, 0}, {0x4006, 0, 0x8765, 0xC001}, {0, 0}, {0x8001, 0x8000}} {
+				for _, bt := range []byte{1, 2} {
+					blk := []byte{bt, 0, 0, byte(2 + len(ch)/2), 0, 0, 0, 7, 0, 1, 0, 9}
+					for _, c := range ch {
+						blk = append(blk, byte(c>>8), byte(c))
+					}
+					x := append([]byte{0x80, 207, 0, 0, 0, 0, 0, 1}, blk...)
+					x = append(x, 4, 0, 0, 2, 0, 0, 0, 1, 0, 0, 0, 2) // a receiver reference time block behind it
+					binary.BigEndian.PutUint16(x[2:], uint16(len(x)/4-1))
+					emit("reenc " + hx(x))
+				}
+			}
 			// received packets with the P bit set, on types whose own encoder never sets it: whatever the decoder makes of the
 			// last octets, the re-encoding must decode to the same
 			sr := append([]byte{0xa0, 200, 0, 8, 0, 0, 0, 1}, make([]byte, 20)...)
@@ -782,6 +819,15 @@ func genOps(prop string, r *Rng, n int, tier string, emit func(string)) {
 			}
 		}
 	case "C08":
+		for _, ty := range []int{0, 1, 205, 255} { // the caller's TWCC header: a count above 31 cannot be encoded whatever the other fields say
+			for _, c := range []int{15, 31, 32, 40, 255} {
+				for _, pad := range []bool{false, true} {
+					t := twccWithDelta(1, 250)
+					t.Header.Type, t.Header.Count, t.Header.Padding = rtcp.PacketType(ty), uint8(c), pad
+					emit(encOp(t))
+				}
+			}
+		}
 		for i := 0; i < n; i++ {
 			k := allKinds[r.Intn(len(allKinds))]
 			emit(encOp(genValue(r, k, true)))
@@ -878,6 +924,22 @@ func genOps(prop string, r *Rng, n int, tier string, emit func(string)) {
 				if b, err := rtcp.Marshal(ps); err == nil {
 					emit("cdec " + hx(b))
 				}
+			}
+		}
+		{ // members of unaligned size (caller-built RawPackets) in the middle and at the end: Marshal is Validate plus the members
+			rr := &rtcp.ReceiverReport{SSRC: 1}
+			sd := &rtcp.SourceDescription{Chunks: []rtcp.SourceDescriptionChunk{{Source: 1, Items: []rtcp.SourceDescriptionItem{{Type: rtcp.SDESCNAME, Text: "c"}}}}}
+			bye := &rtcp.Goodbye{Sources: []uint32{1}}
+			for _, n := range []int{5, 6, 7, 9} {
+				raw := rtcp.RawPacket(append([]byte{0x80, 199, 0, 1}, make([]byte, n-4)...))
+				for _, ps := range [][]rtcp.Packet{{rr, sd, &raw, bye}, {rr, sd, bye, &raw}, {rr, sd, &raw, &raw}} {
+					emit("cenc " + packetsTokens(ps))
+					emit("cval " + packetsTokens(ps))
+				}
+			}
+			sd2 := &rtcp.SourceDescription{Chunks: []rtcp.SourceDescriptionChunk{{Source: 1, Items: []rtcp.SourceDescriptionItem{{Type: rtcp.SDESCNAME, Text: "c"}}}, {Source: 2, Items: []rtcp.SourceDescriptionItem{{Type: rtcp.SDESName, Text: "n"}}}, {Source: 3}}}
+			for _, op := range []string{"cval", "cenc", "ccname", "crt"} {
+				emit(op + " " + packetsTokens([]rtcp.Packet{rr, sd2}))
 			}
 		}
 		{ // a caller-built RawPacket whose type octet says SR/RR is still not an SR/RR
@@ -1141,6 +1203,18 @@ func genOps(prop string, r *Rng, n int, tier string, emit func(string)) {
 			}
 		}
 	case "C14":
+		for _, bits := range []uint32{0xff7fffff, 0xfe7fffc0, 0xe8000000, 0xff800000, 0xbf800000, 0xfe7fff80} { // negative values of large magnitude
+			q := &rtcp.ReceiverEstimatedMaximumBitrate{SenderSSRC: 1, Bitrate: math.Float32frombits(bits)}
+			emit(encOp(q))
+		}
+		for n := 248; n <= 256; n++ { // list lengths around the one-octet boundaries of count and length
+			q := &rtcp.ReceiverEstimatedMaximumBitrate{SenderSSRC: 1, Bitrate: 1e6}
+			for j := 0; j < n; j++ {
+				q.SSRCs = append(q.SSRCs, uint32(j+1))
+			}
+			emit(encOp(q))
+			emit("rt 1 " + packetTokens(q))
+		}
 		for _, bits := range []uint32{0x80000000, 0, 1, 0x80000001, 0x3f7fffff, 0x3f800000, 0x7f7fffff, 0x7f800000} { // -0, +0, the smallest values, 1-ulp, 1, max, +Inf
 			q := &rtcp.ReceiverEstimatedMaximumBitrate{SenderSSRC: 1, Bitrate: math.Float32frombits(bits), SSRCs: []uint32{7}}
 			emit(encOp(q))
@@ -1221,6 +1295,15 @@ func genOps(prop string, r *Rng, n int, tier string, emit func(string)) {
 				emit("reenc " + hx(genXRBytes(r)))
 			}
 		}
+		for _, nb := range []int{1024, 1025, 2000} { // more blocks than any "reasonable" cap: header-only opaque blocks
+			x := []byte{0x80, 207, 0, 0, 0, 0, 0, 1}
+			for j := 0; j < nb; j++ {
+				x = append(x, byte(100+j%100), byte(j), 0, 0)
+			}
+			binary.BigEndian.PutUint16(x[2:], uint16(len(x)/4-1))
+			emit("dec.XR " + hx(x))
+			emit("reenc " + hx(x))
+		}
 		for i := 0; i < 6; i++ { // a used receiver: blocks of an earlier packet, then a report with fewer (or no) blocks
 			emit("reuse.XR " + hx(genXRBytes(r)) + " " + hx([]byte{0x80, 207, 0, 1, 0, 0, 0, byte(i)}))
 			emit("reuse.XR " + hx(genXRBytes(r)) + " " + hx(genXRBytes(r)))
@@ -1252,6 +1335,20 @@ func genOps(prop string, r *Rng, n int, tier string, emit func(string)) {
 				putTwccChunk(w, &rtcp.RunLengthChunk{Type: ty, PacketStatusSymbol: uint16(r.Intn(4)), RunLength: uint16(r.Bits(13, 13))})
 				emit("enc.TCHUNK " + w.String())
 			}
+		}
+		for _, id := range []int{65519, 65520, 65534, 65535, 0} { // the pair accessors across the 65535 -> 0 wrap
+			for _, bm := range []int{0x7, 0x8001, 0xffff, 0x0101, 0x8000} {
+				emit(fmt.Sprintf("plist %d %d", id, bm))
+				emit(fmt.Sprintf("range %d %d %d", id, bm, 17))
+				emit(fmt.Sprintf("range %d %d %d", id, bm, 2))
+			}
+		}
+		for _, l := range [][][3]uint16{{{5, 7, 9}, {0, 0, 0}}, {{0, 0, 0}}, {{0, 0, 0}, {1, 2, 3}}, {{0, 0, 0}, {0, 0, 0}, {0, 0, 0}}, {{8191, 8191, 63}, {0, 0, 0}}} { // an all-zero SLI word is an entry like any other
+			v := &rtcp.SliceLossIndication{SenderSSRC: 1, MediaSSRC: 2}
+			for _, e := range l {
+				v.SLI = append(v.SLI, rtcp.SLIEntry{First: e[0], Number: e[1], Picture: uint8(e[2])})
+			}
+			emit(opWith("rto", v))
 		}
 		for i := 0; i < 60; i++ { // a pair's packet list goes back into one pair, also across the 65535 -> 0 wrap
 			id, bm := uint16(r.Pick(65530, 65535, 65520, 0, 1, int(r.Bits(16, 16)))), uint16(r.Bits(16, 16))
@@ -1439,6 +1536,10 @@ func genOps(prop string, r *Rng, n int, tier string, emit func(string)) {
 			emit(fmt.Sprintf("enumstr.Chunk %d", c))
 		}
 	case "C18":
+		for _, p := range []rtcp.Packet{&rtcp.Goodbye{}, &rtcp.SourceDescription{}, &rtcp.ReceiverReport{}, &rtcp.PictureLossIndication{}, &rtcp.RapidResynchronizationRequest{}, &rtcp.ExtendedReport{}, &rtcp.ReceiverEstimatedMaximumBitrate{}, &rtcp.CCFeedbackReport{}} {
+			// zero values: whatever Marshal returns belongs to the caller, who may write into it
+			emit("hold." + kindName(p) + " " + bodyTokens(p) + " | " + bodyTokens(p))
+		}
 		{ // deterministic items: XR blocks whose thinning value does not fit the four bits it is sent in
 			for _, t := range []uint8{0x1C, 0xF3, 0x10, 0x0F} {
 				l := &rtcp.LossRLEReportBlock{}
